@@ -205,11 +205,13 @@ Flow Stream::extract_client_flow(const PDU& packet) {
     if (!tcp) {
         throw invalid_packet();
     }
+    // The SYN flag occupies one sequence number
+    const uint32_t first_seq = tcp->seq() + (tcp->has_flags(TCP::SYN) ? 1 : 0);
     if (const IP* ip = packet.find_pdu<IP>()) {
-        return Flow(ip->dst_addr(), tcp->dport(), tcp->seq());
+        return Flow(ip->dst_addr(), tcp->dport(), first_seq);
     }
     else if (const IPv6* ip = packet.find_pdu<IPv6>()) {
-        return Flow(ip->dst_addr(), tcp->dport(), tcp->seq());
+        return Flow(ip->dst_addr(), tcp->dport(), first_seq);
     }
     else {
         throw invalid_packet();
